@@ -936,6 +936,16 @@ func c13RestartWhile(w *core.W, kind string, beforeLoop bool, seed uint64) {
 }
 
 func c13RestartVia(w *core.W, kind string, beforeLoop, viaListen bool, seed uint64) {
+	c13RestartFull(w, kind, beforeLoop, viaListen, false, seed)
+}
+
+// c13RestartAfterExpiredShutdown: the first shutdown is a ShutdownContext whose context expires while the
+// handler is still held (it returns the context's error, the drain goes on); the second start comes after that.
+func c13RestartAfterExpiredShutdown(w *core.W, kind string, seed uint64) {
+	c13RestartFull(w, kind, false, false, true, seed)
+}
+
+func c13RestartFull(w *core.W, kind string, beforeLoop, viaListen, ctxExpires bool, seed uint64) {
 	name := "restart-during-drain"
 	if beforeLoop {
 		name = "restart-before-serve-loop"
@@ -970,10 +980,30 @@ func c13RestartVia(w *core.W, kind string, beforeLoop, viaListen bool, seed uint
 		}
 	}
 	sg := e.ctl.Gate("shutdown.unlocked", false)
-	sd := e.shutdown("s1", nil)
+	var sdCtx context.Context
+	if ctxExpires {
+		var cancel context.CancelFunc
+		sdCtx, cancel = context.WithTimeout(context.Background(), 40*time.Millisecond)
+		defer cancel()
+		w.Count("restarts_after_an_expired_shutdown_context", 1)
+	}
+	sd := e.shutdown("s1", sdCtx)
 	sg.WaitArrived(2 * time.Second)
 	sg.Release()
 	time.Sleep(5 * time.Millisecond) // Shutdown is now waiting for the held handler
+	expired := false
+	if ctxExpires {
+		// the caller gives up waiting: ShutdownContext returns the context's error while the handler is
+		// still held and the serve loop still draining
+		err, ok := sd.wait(c13Watch)
+		switch {
+		case !ok:
+			e.viol("restart-during-drain/shutdown-context-expiry-ignored", "ShutdownContext did not return although its context had expired")
+		case err == nil:
+			e.viol("restart-during-drain/shutdown-returned-nil-with-a-handler-running", "ShutdownContext returned nil while a handler was still held")
+		}
+		expired = true
+	}
 	// second start on a fresh transport
 	oldLn, oldPc := e.ln, e.pc
 	started2 := make(chan struct{})
@@ -1017,7 +1047,10 @@ func c13RestartVia(w *core.W, kind string, beforeLoop, viaListen bool, seed uint
 		e.holdOn.Store(false)
 		close(e.hold)
 	}
-	err, ok := sd.wait(c13Watch)
+	err, ok := error(nil), true
+	if !expired {
+		err, ok = sd.wait(c13Watch)
+	}
 	if !ok {
 		e.viol("restart-during-drain/first-shutdown-does-not-return", fmt.Sprintf("the Shutdown that was draining never returned after the server was started again (second start: %s)", second))
 	} else if err != nil {
@@ -1503,6 +1536,7 @@ func c13Cases() []c13Case {
 			cs = append(cs, c13Case{kind + " restart during drain", func(w *core.W, s uint64) { c13RestartDuringDrain(w, kind, s) }})
 			cs = append(cs, c13Case{kind + " restart before the serve loop", func(w *core.W, s uint64) { c13RestartWhile(w, kind, true, s) }})
 			cs = append(cs, c13Case{kind + " restart during drain through ListenAndServe", func(w *core.W, s uint64) { c13RestartDuringDrainListen(w, kind, s) }})
+			cs = append(cs, c13Case{kind + " restart after an expired shutdown context", func(w *core.W, s uint64) { c13RestartAfterExpiredShutdown(w, kind, s) }})
 		}
 		if kind == "tcp-sim" || kind == "pc-sim" {
 			cs = append(cs, c13Case{kind + " pause", func(w *core.W, s uint64) { c13PauseScenario(w, kind, s) }})
